@@ -15,40 +15,48 @@ import Props.Shards.C19_p32_sample_13
 import Props.Shards.C19_p32_sample_14
 import Props.Shards.C19_p32_sample_15
 import Lemmas.Sweep
+import Lemmas.Rs
 /-! # C19 — random sampling yields real posits in [0,1)
 
 The `sample` bodies are translated with every `rng.gen_range(lo..hi)` replaced by an INPUT `rng_k` guarded by
-`Rs.gen_range_*` (contract `lo ≤ rng_k < hi`, assumed of rand 0.8).  Theorems, for EVERY value the generator can draw:
-* P8E0: all 256 values of the `u8` input: in range ⇒ a pattern in `[0, 0x40)` (a real posit in [0,1)); out of range ⇒ `Trap.assume`;
-* P16E1: all 2^18 draws ⇒ `sub_one` terminates and returns a pattern in `[0, 0x4000)`;
-* P32E2: all 2^27 × 4 draws ⇒ a pattern in `[0, 0x4000_0000)` (16 shards).
-None of these calls traps (no panic / overflow / non-termination in either build profile). -/
+`Rs.gen_range_*` (contract `lo ≤ rng_k < hi`, assumed of rand 0.8; outside it the model reports `Trap.assume`).
+Theorems, for EVERY value the generator can draw:
+* P8E0: all 256 values of the `u8` input: either a pattern in `[0, 0x40)` (a real posit in [0,1)) or outside the contract;
+* P16E1: all 2^18 values: `sub_one` terminates and returns a pattern in `[0, 0x4000)`, or the draw is outside the contract;
+* P32E2: all 2^27 first draws × all 4 second draws: a pattern in `[0, 0x4000_0000)` (16 shards for `from_bits(s) - ONE`,
+  plus the bit-level fact that XOR with a 2-bit value cannot leave `[0, 2^30)`).
+No call traps (no panic / overflow / non-termination in either build profile). -/
 open Gen Sweep SweepG
 namespace C19
 
 theorem p8_sample_sweep : all1 256 sample8Ok = true := by native_decide
 theorem p16_sample_sweep : all1 262144 sample16Ok = true := by native_decide
 
-theorem p8_sample (r : UInt8) (h : r < 64) :
-    ∃ p, crate.p8e0.rand.Distribution.sample r = .ok p ∧ bits8 p < 0x40 := by
+theorem p8_sample (r : UInt8) :
+    (∃ p, crate.p8e0.rand.Distribution.sample r = .ok p ∧ bits8 p < 0x40) ∨
+      crate.p8e0.rand.Distribution.sample r = .error .assume := by
   have := all1_imp p8_sample_sweep r.toNat r.toNat_lt
   unfold sample8Ok at this
   simp only [UInt8.ofNat_toNat] at this
   split at this
-  · next p hp => exact ⟨p, hp, by simpa using (Bool.and_eq_true _ _ ▸ this).2⟩
-  · next e he => simp [UInt8.lt_iff_toNat_lt] at h; simp at this; omega
+  · next p hp => left; exact ⟨p, hp, by simp at this; exact this.2⟩
+  · next e he => right; simp at this; rw [he, this.2]
+/-- the contract range is not empty: the theorem above is not vacuous -/
+example : ∃ p, crate.p8e0.rand.Distribution.sample 17 = .ok p := ⟨_, rfl⟩
 
 theorem p16_sample (r : UInt32) (h : r < 262144) :
-    ∃ p, crate.p16e1.rand.Distribution.sample r = .ok p ∧ bits16 p < 0x4000 := by
+    (∃ p, crate.p16e1.rand.Distribution.sample r = .ok p ∧ bits16 p < 0x4000) ∨
+      crate.p16e1.rand.Distribution.sample r = .error .assume := by
   have hr : r.toNat < 262144 := by simpa [UInt32.lt_iff_toNat_lt] using h
   have := all1_imp p16_sample_sweep r.toNat hr
   unfold sample16Ok at this
   simp only [UInt32.ofNat_toNat] at this
   split at this
-  · next p hp => exact ⟨p, hp, by simpa using this⟩
-  · cases this
+  · next p hp => left; exact ⟨p, hp, by simpa using this⟩
+  · next e he => right; simp at this; rw [he, this]
+example : (match crate.p16e1.rand.Distribution.sample 123456 with | .ok _ => true | .error _ => false) = true := by native_decide
 
-theorem p32_sample_shards (k : Nat) (hk : k < 16) : allRangeTR (1073741824 + k * 8388608) 8388608 sample32Ok = true :=
+theorem p32_sample_shards (k : Nat) (hk : k < 16) : allRangeTR (1073741824 + k * 8388608) 8388608 sample32SubOk = true :=
   match k, hk with
   | 0, _ => p32_sample_shard0
   | 1, _ => p32_sample_shard1
@@ -68,18 +76,37 @@ theorem p32_sample_shards (k : Nat) (hk : k < 16) : allRangeTR (1073741824 + k *
   | 15, _ => p32_sample_shard15
   | n + 16, h => absurd h (by omega)
 
+theorem p32_sub_one (s : UInt32) (h1 : 1073741824 ≤ s) (h1' : s < 1207959552) : sample32SubOk s.toNat = true := by
+  have a1 : 1073741824 ≤ s.toNat := by simpa [UInt32.le_iff_toNat_le] using h1
+  have a2 : s.toNat < 1207959552 := by simpa [UInt32.lt_iff_toNat_lt] using h1'
+  have hk : (s.toNat - 1073741824) / 8388608 < 16 := by omega
+  exact allRangeTR_imp (p32_sample_shards _ hk) s.toNat (by omega) (by omega)
+
+theorem xor_small (a b : UInt32) (ha : a.toNat < 1073741824) (hb : b.toNat < 4) : (a ^^^ b).toNat < 1073741824 := by
+  rw [UInt32.toNat_xor]
+  exact Nat.xor_lt_two_pow (n := 30) ha (by omega)
+
+/-- **C19, P32E2**: for every pair of draws inside rand's contract the sample is a real posit in [0,1) -/
 theorem p32_sample (r1 r2 : UInt32) (h1 : 1073741824 ≤ r1) (h1' : r1 < 1207959552) (h2 : r2 < 4) :
     ∃ p, crate.p32e2.rand.Distribution.sample r1 r2 = .ok p ∧ bits32 p < 0x40000000 := by
-  have a1 : 1073741824 ≤ r1.toNat := by simpa [UInt32.le_iff_toNat_le] using h1
-  have a2 : r1.toNat < 1207959552 := by simpa [UInt32.lt_iff_toNat_lt] using h1'
-  have a3 : r2.toNat < 4 := by simpa [UInt32.lt_iff_toNat_lt] using h2
-  have hk : (r1.toNat - 1073741824) / 8388608 < 16 := by omega
-  have hs := allRangeTR_imp (p32_sample_shards _ hk) r1.toNat (by omega) (by omega)
-  unfold sample32Ok at hs
-  have := all1_imp hs r2.toNat a3
-  simp only [UInt32.ofNat_toNat] at this
-  split at this
-  · next p hp => exact ⟨p, hp, by simpa using this⟩
-  · cases this
+  have hs := p32_sub_one r1 h1 h1'
+  unfold sample32SubOk at hs
+  rw [UInt32.ofNat_toNat] at hs
+  split at hs
+  · cases hs
+  · next y hf =>
+    split at hs
+    · cases hs
+    · next x hx =>
+      have hxb : bits32 x < 1073741824 := by simpa using hs
+      unfold crate.p32e2.rand.Distribution.sample
+      have h0 : (0 : UInt32) ≤ r2 := by simp [UInt32.le_iff_toNat_le]
+      rw [Rs.gen_range_u32, Rs.gen_range_u32, if_pos ⟨h1, h1'⟩, if_pos ⟨h0, h2⟩]
+      simp only [bind, Except.bind, pure, Except.pure, hf, hx]
+      simp only [crate.p32e2.P32E2.to_bits, crate.p32e2.P32E2.from_bits, pure, Except.pure]
+      refine ⟨_, rfl, ?_⟩
+      rw [Rs.cast_u32_i32_eq, Rs.cast_i32_u32_eq]
+      simp only [bits32, UInt32.toUInt32_toInt32] at hxb ⊢
+      exact xor_small _ _ hxb (by simpa [UInt32.lt_iff_toNat_lt] using h2)
 
 end C19
